@@ -164,7 +164,10 @@ func (r RackAffinityGroupBalancer) ProtocolName() string {
 func (r RackAffinityGroupBalancer) AssignGroups(members []GroupMember, partitions []Partition) GroupMemberAssignments {
 	membersByTopic := make(map[string][]GroupMember)
 	for _, m := range members {
-		for _, t := range m.Topics {
+		for i, t := range m.Topics {
+			if topicListedBefore(m.Topics, i) {
+				continue
+			}
 			membersByTopic[t] = append(membersByTopic[t], m)
 		}
 	}
@@ -301,7 +304,10 @@ func findPartitions(topic string, partitions []Partition) []int {
 func findMembersByTopic(members []GroupMember) map[string][]GroupMember {
 	membersByTopic := map[string][]GroupMember{}
 	for _, member := range members {
-		for _, topic := range member.Topics {
+		for i, topic := range member.Topics {
+			if topicListedBefore(member.Topics, i) {
+				continue
+			}
 			membersByTopic[topic] = append(membersByTopic[topic], member)
 		}
 	}
@@ -325,6 +331,18 @@ func findMembersByTopic(members []GroupMember) map[string][]GroupMember {
 	}
 
 	return membersByTopic
+}
+
+// topicListedBefore reports whether topics[i] already occurs in topics[:i].  A
+// member that lists a topic more than once (the list comes from user
+// configuration) still holds a single subscription to it.
+func topicListedBefore(topics []string, i int) bool {
+	for _, t := range topics[:i] {
+		if t == topics[i] {
+			return true
+		}
+	}
+	return false
 }
 
 // findGroupBalancer returns the GroupBalancer with the specified protocolName
